@@ -7,7 +7,7 @@
 From FV Require Import Base.Bytes Codec.Value Codec.Enc Codec.Dec Codec.Spec.
 From FV Require Import Proofs.SpecLemmas Proofs.SpecEnc Proofs.SpecDec Proofs.SpecDecTight.
 From Coq Require Import List.
-From FV Require Import Codec.Composite Codec.CompositeSpec Gen.Composites Tie.Tie_Composites Proofs.CompositeProofs Proofs.CompositeTable.
+From FV Require Import Codec.Composite Codec.CompositeSpec Gen.Composites Tie.Tie_Composites Proofs.CompositeProofs Proofs.CompositeTable Frame.AmqpFrame Proofs.AmqpFrameProofs.
 Open Scope N_scope.
 
 (** What the encoder writes for any well-formed value is, judged by the
@@ -89,3 +89,33 @@ Theorem C05_missing_mandatory_field_refused :
     exists e, dec_fields fuel ks left bs = Err e.
 Proof. exact truncated_mandatory_refused. Qed.
 Print Assumptions C05_missing_mandatory_field_refused.
+
+(** ... also when the composite is read through an enum that dispatches on the descriptor
+    (a frame body as [Performative], a delivery state): the descriptor may be given by code
+    or by name, in any width *)
+Theorem C05_enum_layouts_accepted :
+  forall tbl s d vs ws fuel b rest,
+    In s spec_schemas -> dispatch tbl d = Some s ->
+    (d = DCode (s_code s) \/ d = DName (s_name s)) ->
+    fields_ok (s_fields s) vs = true ->
+    presentation (s_fields s) vs ws = true ->
+    forallb wf ws = true -> lenN ws <= MAXCOUNT -> Forall (fun w => (depth w <= fuel)%nat) ws ->
+    enc Plain (VDescribed d (VList ws)) = Some b ->
+    dec_via_enum fuel tbl (b ++ rest) = Ok (s, vs, rest).
+Proof. exact enum_layouts_accepted. Qed.
+Print Assumptions C05_enum_layouts_accepted.
+
+(** the performatives and the delivery states are found under their code and under their name *)
+Theorem C05_enum_dispatch :
+  (forall s, In s performative_schemas ->
+     dispatch performative_schemas (DCode (s_code s)) = Some s /\ dispatch performative_schemas (DName (s_name s)) = Some s) /\
+  (forall s, In s delivery_state_schemas ->
+     dispatch delivery_state_schemas (DCode (s_code s)) = Some s /\ dispatch delivery_state_schemas (DName (s_name s)) = Some s).
+Proof.
+  split; intros s H; split.
+  - exact (performative_dispatch s H).
+  - exact (performative_dispatch_by_name s H).
+  - exact (dispatch_finds delivery_state_schemas s H delivery_state_codes_distinct).
+  - exact (delivery_state_dispatch_by_name s H).
+Qed.
+Print Assumptions C05_enum_dispatch.
